@@ -5,7 +5,8 @@ quick/thorough = number of rapid cases in total (split over shards)."""
 CHECKS = {
     "C17": {
         "subs": [
-            {"pkg": "pure", "test": "TestC17LWW", "quick": 20000, "thorough": 1000000, "shards_quick": 8, "shards_thorough": 16},
+            {"pkg": "pure", "test": "TestRegressD2", "quick": 1, "thorough": 1, "shards": 1},
+        {"pkg": "pure", "test": "TestC17LWW", "quick": 20000, "thorough": 1000000, "shards_quick": 8, "shards_thorough": 16},
         ],
         "engine": "PURE",
         "level_text": "Stateful property-based test: generated upsert/delete/compact/leave sequences on the real gossip state object are compared step by step with a reference last-write-wins map (visible keys, tombstones, version freshness, no-op detection, compaction effects). Exploration only: shows the property for the generated sequences.",
@@ -38,7 +39,8 @@ CHECKS["C12"] = {
 
 SIM_NOTE = "the in-memory network and the synchronous scheduling of handler calls are the harness's model of UDP and of the node's goroutines; join/leave stream clients mirror Gossip.join/leave; known finding F3 (stale delta after an expiry) is excluded by dropping the packet"
 CHECKS["C02"] = {
-    "subs": [{"pkg": "sim", "test": "TestC02", "quick": 4000, "thorough": 200000, "shards_quick": 8, "shards_thorough": 16, "timeout_thorough": 7200}],
+    "subs": [{"pkg": "sim", "test": "TestKnownF3", "quick": 1, "thorough": 1, "shards": 1},
+             {"pkg": "sim", "test": "TestC02", "quick": 4000, "thorough": 200000, "shards_quick": 8, "shards_thorough": 16, "timeout_thorough": 7200}],
     "engine": "SIM",
     "level_text": "Deterministic-simulation property test: generated histories over 2-4 real gossip nodes and a generated network (loss, duplication, reordering, partitions, truncating packet limits); after every step each observer's view is checked against the owner's recorded write history. Exploration only.",
     "technique": "stateful PBT (rapid) over a simulated network in a synctest bubble; oracle = recorded owner write history",
@@ -66,7 +68,8 @@ CHECKS["C04"] = {
     "level_note": SIM_NOTE,
 }
 CHECKS["C11"] = {
-    "subs": [{"pkg": "sim", "test": "TestC11", "quick": 3000, "thorough": 150000, "shards_quick": 8, "shards_thorough": 16, "timeout_thorough": 7200}],
+    "subs": [{"pkg": "sim", "test": "TestKnownF2", "quick": 1, "thorough": 1, "shards": 1},
+             {"pkg": "sim", "test": "TestC11", "quick": 3000, "thorough": 150000, "shards_quick": 8, "shards_thorough": 16, "timeout_thorough": 7200}],
     "engine": "SIM",
     "level_text": "Simulated membership histories on a virtual clock with boundary-directed time steps; invariants I1-I6 are checked after every atomic action. Known finding F2 is recognised by its structural signature. Exploration only.",
     "technique": "stateful PBT (rapid) on a virtual clock, invariant oracle over the membership history",
@@ -75,6 +78,7 @@ CHECKS["C11"] = {
 
 CHECKS["C05"] = {
     "subs": [
+        {"pkg": "sim", "test": "TestRegressD1", "quick": 1, "thorough": 1, "shards": 1},
         {"pkg": "sim", "test": "TestC05Seq", "quick": 10000, "thorough": 400000, "shards_quick": 4, "shards_thorough": 8},
         {"pkg": "sim", "test": "TestC05Concurrent", "quick": 2000, "thorough": 60000, "shards_quick": 4, "shards_thorough": 8},
         {"pkg": "sim", "test": "TestC05Sim", "quick": 2000, "thorough": 60000, "shards_quick": 4, "shards_thorough": 8},
@@ -86,6 +90,7 @@ CHECKS["C05"] = {
 }
 CHECKS["C13"] = {
     "subs": [
+        {"pkg": "pure", "test": "TestRegressD5", "quick": 1, "thorough": 1, "shards": 1},
         {"pkg": "pure", "test": "TestC13Delta", "quick": 600, "thorough": 40000, "shards_quick": 6, "shards_thorough": 12},
         {"pkg": "pure", "test": "TestC13Digest", "quick": 600, "thorough": 40000, "shards_quick": 3, "shards_thorough": 8},
         {"pkg": "pure", "test": "TestC13GossipSender", "quick": 100, "thorough": 3000, "shards_quick": 3, "shards_thorough": 8},
@@ -109,7 +114,8 @@ CHECKS["C01"] = {
 }
 
 CHECKS["C06"] = {
-    "subs": [{"pkg": "sys", "test": "TestC06", "quick": 96, "thorough": 3000, "shards_quick": 8, "shards_thorough": 12, "shrinktime": "10s", "timeout_quick": 900, "timeout_thorough": 7200}],
+    "subs": [{"pkg": "sys", "test": "TestRegressD7", "quick": 1, "thorough": 1, "shards": 1},
+             {"pkg": "sys", "test": "TestC06", "quick": 96, "thorough": 3000, "shards_quick": 8, "shards_thorough": 12, "shrinktime": "10s", "timeout_quick": 900, "timeout_thorough": 7200}],
     "engine": "SYS",
     "level_text": "Generated combinations of hand-written (possibly false, cyclic, stale) routing views on real un-joined nodes with counting relays between nodes; per request the number of inter-node hops and the outcome are checked against the views and the real upstream placement. Exploration only.",
     "technique": "configuration-level PBT (rapid) on real servers; oracle = hop counters in harness relays + upstream stamps",
@@ -117,7 +123,8 @@ CHECKS["C06"] = {
 }
 
 CHECKS["C18"] = {
-    "subs": [{"pkg": "sys", "test": "TestC18", "quick": 48, "thorough": 1200, "shards_quick": 8, "shards_thorough": 12, "shrinktime": "10s", "timeout_quick": 1200, "timeout_thorough": 7200}],
+    "subs": [{"pkg": "sys", "test": "TestRegressD4", "quick": 1, "thorough": 1, "shards": 1},
+             {"pkg": "sys", "test": "TestC18", "quick": 48, "thorough": 1200, "shards_quick": 8, "shards_thorough": 12, "shrinktime": "10s", "timeout_quick": 1200, "timeout_thorough": 7200}],
     "engine": "SYS",
     "level_text": "Generated node-loss scenarios (which node, graceful or kill, idle / attached / in-flight, grace period) on real clusters with upstream listeners behind a load balancer; the graceful path is checked for termination, withdrawal and synchronous leave notification, both paths for listener reconnection and recovery of service from every survivor. Exploration only; liveness against deadlines.",
     "technique": "fault-scenario PBT (rapid) on real in-process servers; oracle = stamps, routing tables and shutdown timing",
@@ -134,6 +141,8 @@ CHECKS["C16"] = {
 
 CHECKS["C08"] = {
     "subs": [
+        {"pkg": "sys", "test": "TestRegressD3", "quick": 1, "thorough": 1, "shards": 1},
+        {"pkg": "sys", "test": "TestRegressD6", "quick": 1, "thorough": 1, "shards": 1},
         {"pkg": "sys", "test": "TestC08Transparency", "quick": 80, "thorough": 4000, "shards_quick": 8, "shards_thorough": 12, "shrinktime": "10s", "timeout_quick": 900, "timeout_thorough": 7200},
         {"pkg": "sys", "test": "TestC08Failures", "quick": 64, "thorough": 2000, "shards_quick": 8, "shards_thorough": 12, "shrinktime": "10s", "timeout_quick": 900, "timeout_thorough": 7200},
     ],
